@@ -49,6 +49,11 @@ func init() {
 
 type unsupportedT struct{ X int }
 
+// caller-defined types over int64 and bool: the engine does not convert them, so they are not variables the generator can use
+type c20ID int64
+type c20Flag bool
+type c20Count int
+
 func c20VarMaps(r *rand.Rand, k int) (vals map[string]interface{}, dne map[string]interface{}) {
 	vals, dne = map[string]interface{}{}, map[string]interface{}{}
 	ints := func(ext bool) {
@@ -90,6 +95,9 @@ func c20VarMaps(r *rand.Rand, k int) (vals map[string]interface{}, dne map[strin
 		vals["strct"] = unsupportedT{1}
 		vals["list"] = []int64{1}
 		vals["nilv"] = nil
+		vals["user_id"] = c20ID(7)
+		vals["is_admin"] = c20Flag(true)
+		vals["visits"] = c20Count(3)
 	}
 	return
 }
